@@ -103,6 +103,14 @@ Qed.
 Theorem read_print_fixed k n rest : (n < 10 ^ N.of_nat k)%N -> read_fixed k (print_fixed k n ++ rest) = Some (n, rest).
 Proof. intros H. unfold read_fixed. rewrite read_fixed_acc_print, N.mod_small by exact H. reflexivity. Qed.
 
+Lemma frac6_print u : (u < 1000000)%N -> frac6 (print_fixed 6 u) = u.
+Proof.
+  intros H. unfold frac6. rewrite firstn_app, print_fixed_length, Nat.sub_diag.
+  rewrite firstn_all2 by (rewrite print_fixed_length; lia). rewrite firstn_O.
+  rewrite read_print_fixed by (cbn; lia). reflexivity.
+Qed.
+
+
 (* ------------------------------------------------------------------ Duration *)
 Lemma opt_part_print2 c n rest : is_digit c = false -> opt_part c (print_N2 n ++ c :: rest) = Some (n, rest).
 Proof. intros Hc. unfold opt_part. rewrite read_print_N2 by (cbn; exact Hc). now rewrite N.eqb_refl. Qed.
@@ -112,11 +120,67 @@ Proof.
 Qed.
 Lemma opt_seconds_print2 n : opt_seconds (print_N2 n ++ [c_S]) = Some (n, 0%N, []).
 Proof. unfold opt_seconds. rewrite read_print_N2 by reflexivity. reflexivity. Qed.
+Lemma opt_seconds_print2_frac n f : (f < 1000000)%N ->
+  opt_seconds (print_N2 n ++ c_dot :: print_fixed 6 f ++ [c_S]) = Some (n, f, []).
+Proof.
+  intros Hf. unfold opt_seconds. rewrite read_print_N2 by reflexivity.
+  change (c_dot =? c_S)%N with false. change (c_dot =? c_dot)%N with true. cbn iota.
+  rewrite read_digits_app by (auto using print_fixed_digits).
+  destruct (print_fixed 6 f) as [|f0 fr] eqn:E.
+  { pose proof (print_fixed_length 6 f) as L. rewrite E in L. discriminate. }
+  change (c_S =? c_S)%N with true. cbn iota. rewrite <- E, frac6_print by exact Hf. reflexivity.
+Qed.
 
-(* truncation of a microsecond count to whole seconds, toward zero: what survives Duration.encode *)
+(* truncation of a microsecond count to whole seconds, toward zero: what survived the pinned Duration.encode *)
 Definition trunc_s (us : Z) : Z := (Z.quot us 1000000 * 1000000)%Z.
 
 Lemma dur_arith (a : N) :
+  let a1 := (a mod 3600000000)%N in let a2 := (a1 mod 60000000)%N in
+  ((0 * 86400 + a / 3600000000 * 3600 + a1 / 60000000 * 60 + a2 / 1000000) * 1000000 + a2 mod 1000000 = a)%N.
+Proof.
+  intros a1 a2.
+  pose proof (N.div_mod a 3600000000 ltac:(lia)) as H1. pose proof (N.mod_upper_bound a 3600000000 ltac:(lia)) as B1.
+  pose proof (N.div_mod a1 60000000 ltac:(lia)) as H2. pose proof (N.mod_upper_bound a1 60000000 ltac:(lia)) as B2.
+  pose proof (N.div_mod a2 1000000 ltac:(lia)) as H3. pose proof (N.mod_upper_bound a2 1000000 ltac:(lia)) as B3.
+  fold a1 in H1, B1, H2. fold a2 in H2, B2, H3.
+  generalize dependent (a / 3600000000)%N. generalize dependent (a1 / 60000000)%N. generalize dependent (a2 / 1000000)%N.
+  generalize dependent (a2 mod 1000000)%N.
+  clearbody a2. clearbody a1. intros. lia.
+Qed.
+
+Theorem dur_decode_encode (us : Z) : dur_decode (dur_encode us) = Some us.
+Proof.
+  unfold dur_encode. set (a := Z.to_N (Z.abs us)).
+  set (h := (a / 3600000000)%N). set (a1 := (a mod 3600000000)%N).
+  set (m := (a1 / 60000000)%N). set (a2 := (a1 mod 60000000)%N). set (sec := (a2 / 1000000)%N). set (f := (a2 mod 1000000)%N).
+  set (tail := print_N2 sec ++ (if (f =? 0)%N then [] else c_dot :: print_fixed 6 f) ++ [c_S]).
+  set (body := print_N2 h ++ c_H :: print_N2 m ++ c_M :: tail).
+  assert (Hf : (f < 1000000)%N) by (unfold f; apply N.mod_upper_bound; lia).
+  assert (Htail : tail <> [] /\ opt_seconds tail = Some (sec, f, [])).
+  { unfold tail. split.
+    - intros E. apply app_eq_nil in E as [E _]. now apply print_N2_nonempty in E.
+    - destruct (N.eqb_spec f 0) as [E|Hne]; cbn [app]; [rewrite E; apply opt_seconds_print2 | now apply opt_seconds_print2_frac]. }
+  destruct Htail as [Hne Hos].
+  assert (Hdec : forall sg : Z, dur_body sg (c_P :: c_T :: body) = Some (sg * Z.of_N a)%Z).
+  { intros sg. unfold dur_body. change (negb (c_P =? c_P)%N) with false. cbn iota.
+    unfold part_or_zero at 1. rewrite opt_part_nondigit by reflexivity.
+    change (negb (c_T =? c_T)%N) with false. cbn iota. unfold body.
+    unfold part_or_zero. rewrite !opt_part_print2 by reflexivity.
+    destruct tail as [|x l] eqn:E; [congruence|]. rewrite Hos. f_equal. f_equal. f_equal. apply dur_arith. }
+  assert (Hq : forall sg : Z, (sg = if (us <? 0)%Z then -1 else 1)%Z -> (sg * Z.of_N a = us)%Z).
+  { intros sg ->. unfold a. rewrite Z2N.id by lia. destruct (Z.ltb_spec us 0); lia. }
+  unfold dur_decode. destruct (Z.ltb_spec us 0) as [Hneg|Hpos].
+  - cbn [app]. change (c_minus =? c_minus)%N with true. cbn iota.
+    fold tail. fold body. rewrite (Hdec (-1)%Z). f_equal. apply Hq. destruct (Z.ltb_spec us 0); [reflexivity | lia].
+  - cbn [app]. change (c_P =? c_minus)%N with false. cbn iota.
+    fold tail. fold body. rewrite (Hdec 1%Z). f_equal. apply Hq. destruct (Z.ltb_spec us 0); [lia | reflexivity].
+Qed.
+
+Theorem dur_roundtrip_s (s : Z) : dur_decode (dur_encode_s s) = Some (s * 1000000)%Z.
+Proof. apply dur_decode_encode. Qed.
+
+(* the pinned encoder drops the sub-second part: what comes back is the value truncated toward zero to whole seconds (F71) *)
+Lemma dur_arith_trunc (a : N) :
   let a1 := (a mod 3600000000)%N in let a2 := (a1 mod 60000000)%N in
   ((0 * 86400 + a / 3600000000 * 3600 + a1 / 60000000 * 60 + a2 / 1000000) * 1000000 + 0 = a / 1000000 * 1000000)%N.
 Proof.
@@ -131,9 +195,9 @@ Proof.
   clearbody a2. clearbody a1. intros. lia.
 Qed.
 
-Theorem dur_decode_encode (us : Z) : dur_decode (dur_encode us) = Some (trunc_s us).
+Theorem dur_pinned_truncates (us : Z) : dur_decode (dur_encode_pinned us) = Some (trunc_s us).
 Proof.
-  unfold dur_encode. set (a := Z.to_N (Z.abs us)).
+  unfold dur_encode_pinned. set (a := Z.to_N (Z.abs us)).
   set (h := (a / 3600000000)%N). set (a1 := (a mod 3600000000)%N).
   set (m := (a1 / 60000000)%N). set (a2 := (a1 mod 60000000)%N). set (sec := (a2 / 1000000)%N).
   set (body := print_N2 h ++ c_H :: print_N2 m ++ c_M :: print_N2 sec ++ [c_S]).
@@ -158,7 +222,7 @@ Proof.
     unfold part_or_zero. rewrite !opt_part_print2 by reflexivity.
     destruct (print_N2 sec ++ [c_S]) as [|x l] eqn:E.
     - apply app_eq_nil in E as [_ E]. discriminate.
-    - rewrite <- E, opt_seconds_print2. f_equal. f_equal. f_equal. apply dur_arith. }
+    - rewrite <- E, opt_seconds_print2. f_equal. f_equal. f_equal. apply dur_arith_trunc. }
   assert (Hq : forall sg : Z, (sg = if (us <? 0)%Z then -1 else 1)%Z -> (sg * Z.of_N (a / 1000000 * 1000000) = trunc_s us)%Z).
   { intros sg ->. unfold trunc_s, a. rewrite N2Z.inj_mul, N2Z.inj_div, Z2N.id by lia. change (Z.of_N 1000000) with 1000000%Z.
     destruct (Z.ltb_spec us 0).
@@ -174,5 +238,3 @@ Proof.
     rewrite (Hdec 1%Z). f_equal. apply Hq. destruct (Z.ltb_spec us 0); [lia | reflexivity].
 Qed.
 
-Theorem dur_roundtrip_s (s : Z) : dur_decode (dur_encode_s s) = Some (s * 1000000)%Z.
-Proof. unfold dur_encode_s. rewrite dur_decode_encode. unfold trunc_s. rewrite Z.quot_mul by lia. reflexivity. Qed.
